@@ -731,3 +731,803 @@ def crosscheck(i, g, rec):
         for v, key in ((0, "cuts0"), (1, "cuts1")):
             if {frozenset(one(x)) for x in rec[key][k]} != {frozenset(x) for x in py_cut_results(g, c, v)}:
                 raise TLCFailure(f"TLA+ CutResults and the Python oracle disagree on case {i} cut {c} variant {v}")
+
+
+# --------------------------------------------------------------------------------------------
+# judging
+# --------------------------------------------------------------------------------------------
+TOL = 1e-9      # sums / products of <= 40 floats that are exact to a few ulp (DESIGN 5.1: direct algebraic results)
+
+
+class Judge:
+    def __init__(self, ctx, case, rec):
+        self.ctx, self.case, self.rec = ctx, case, rec
+        self.g = g = case["g"]
+        self.N, self.J, self.G = g["N"], g["J"], g["G"]
+        one = lambda xs: {x - 1 for x in xs}            # noqa: E731
+        self.reach, self.reach1 = one(rec["reach"]), one(rec["reach1"])
+        self.term, self.absv, self.absv1 = one(rec["term"]), one(rec["absv"]), one(rec["absv1"])
+        self.T, self.R, self.A = rec["T"], rec["R"], rec["A"]
+        self.lst, self.jal = [x - 1 for x in rec["lst"]], [x - 1 for x in rec["jal"]]
+        self.cuts0 = [{frozenset(one(x)) for x in sets} for sets in rec["cuts0"]]
+        self.cuts1 = [{frozenset(one(x)) for x in sets} for sets in rec["cuts1"]]
+        self.values = case.get("values")
+        self.ok = True
+        self.seen = set()
+
+    # expected float of a probability entry (numerator over PD, or value id of an extracted instance)
+    def pval(self, x):
+        return float(F(x, self.g["PD"])) if self.g["PD"] else self.values[x]
+
+    def fail(self, site, shape, what, obj="game"):
+        self.ok = False
+        if (site, shape) in self.seen:
+            return
+        self.seen.add((site, shape))
+        self.ctx.violation(f"X04:{site}:{shape}", what, {"case": self.case, "object": obj, "clause": shape})
+
+    # ---------------------------------------------------------------- reachable_states
+    def reachability(self, o):
+        g = self.g
+        if "reachable_states" in o["err"]:
+            self.fail("reachable_states", "error", f"raised {o['err']['reachable_states']}")
+        elif "reach" in o:
+            got = set(o["reach"])
+            if got != self.reach:
+                if got == self.reach1:
+                    shape = "zero-probability-successor-included"
+                elif got - self.reach:
+                    shape = "unreachable-state-included"
+                else:
+                    shape = "reachable-state-missing"
+                self.fail("reachable_states", shape,
+                          f"returned states {sorted(got)} but the states reachable with positive probability "
+                          f"(terminal states not expanded) are {sorted(self.reach)}")
+        s0 = {s for s in range(self.N) if g["p0"][s] > 0}
+        for k, c in enumerate(g["cuts"]):
+            key = f"reachable_states({c})"
+            if key in o["err"]:
+                self.fail("reachable_states", "MAX_STATES-error", f"MAX_STATES={c} raised {o['err'][key]}")
+                continue
+            if str(c) not in o["cuts"]:
+                continue
+            got = frozenset(o["cuts"][str(c)])
+            if got in self.cuts0[k]:
+                continue
+            why = None
+            if not (s0 <= got):
+                why = "initial support missing"
+            elif not (got <= self.reach):
+                why = "contains states that are not reachable with positive probability"
+            elif len(self.reach) <= c and got != self.reach:
+                why = "cut although the limit was never exceeded"
+            elif len(got) < min(c, len(self.reach)):
+                why = "stopped before the limit was reached"
+            adm = sorted(map(sorted, self.cuts0[k]))
+            if got in self.cuts1[k] and why and not (got <= self.reach):
+                self.fail("reachable_states", "zero-probability-successor-included",
+                          f"MAX_STATES={c}: returned {sorted(got)}: {why}; explained only by following zero-probability "
+                          f"entries (admissible results {adm})")
+            elif why:
+                self.fail("reachable_states", "MAX_STATES-cutoff", f"MAX_STATES={c}: returned {sorted(got)}: {why} (admissible {adm})")
+            else:       # only reachable states, limit honoured: which states were expanded first is implementation-shaped
+                self.ctx.drift("reachable_states-cutoff-machine", {"case": digest(self.case), "cut": c, "got": sorted(got)})
+
+    # ---------------------------------------------------------------- lists and arrays
+    def arrays(self, o, rep, *, grid=False):
+        g, ctx = self.g, self.ctx
+        explicit = bool(g["explicit"])
+        if "state_list" in o["err"]:
+            self.fail("state_list", "error", f"raised {o['err']['state_list']}")
+            return
+        if "joint_action_list" in o["err"]:
+            self.fail("joint_action_list", "error", f"raised {o['err']['joint_action_list']}")
+            return
+        sl, jl = o["sl"], o["jal"]
+        if None in sl or len(set(sl)) != len(sl):
+            self.fail("state_list", "duplicates-or-unknown", f"state list projects to {sl}")
+            return
+        if None in jl or len(set(jl)) != len(jl):
+            self.fail("joint_action_list", "duplicates-or-unknown", f"joint action list projects to {jl}")
+            return
+        want = set(range(self.N)) if explicit else self.reach
+        if set(sl) != want:
+            if not explicit and set(sl) == self.reach1:
+                self.fail("reachable_states", "zero-probability-successor-included",
+                          f"state_list {sorted(sl)} contains states only listed with probability 0; reachable: {sorted(want)}")
+            else:
+                shape = ("not-the-given-list" if explicit else
+                         "unreachable-state-included" if set(sl) - want else "reachable-state-missing")
+                self.fail("state_list", shape, f"state list {sorted(sl)} but expected {sorted(want)}")
+        wantj = set(range(self.J)) if explicit else {j for j in range(self.J) if any(self.A[s][j] for s in sl)}
+        if set(sl) == set(self.lst) and set(self.jal) != wantj:
+            raise TLCFailure("joint action list of the machine differs from the union of the emitted availability rows")
+        if set(jl) != wantj:
+            shape = ("not-the-given-list" if explicit else
+                     "available-joint-action-missing" if wantj - set(jl) else "not-a-product-of-the-listed-states-action-lists")
+            self.fail("joint_action_list", shape, f"joint action list {sorted(jl)} but the union over the listed states of the "
+                      f"products of the per-agent action lists is {sorted(wantj)}")
+            if wantj - set(jl):
+                return
+        if o.get("sl_sorted") is False and not explicit:
+            ctx.drift("state_list-order", {"case": digest(self.case)})
+        if o.get("jal_sorted") is False and not explicit:
+            ctx.drift("joint_action_list-order", {"case": digest(self.case)})
+        if o["agent_names"] != list(rep["agents"]):
+            self.fail("agent_names", "changed", f"agent_names {o['agent_names']} != {rep['agents']}")
+            return
+        n, k, G = len(sl), len(jl), self.G
+        L = set(sl)
+        # rows that list a state outside the list / rows of unavailable joint actions, on the real lists
+        outof = [(s, j) for s in sl for j in jl
+                 if any((g["P"][s][j][t] > 0 or g["Z"][s][j][t]) and t not in L for t in range(self.N))]
+        if sl == self.lst and sorted(jl) == sorted(self.jal) and sorted(map(tuple, outof)) != sorted((a - 1, b - 1) for a, b in self.rec["outof"]):
+            raise TLCFailure("OutOf of the spec differs from the driver's projection")
+
+        def root_shape(msg):
+            if "UnavailableJointAction" in msg:
+                return "unavailable-joint-action-row"
+            if "is not in list" in msg and outof:
+                s, j = outof[0]
+                if s in self.term:
+                    return "terminal-successor-outside-state-list"
+                if not self.A[s][j]:
+                    return "unavailable-joint-action-row"
+                return "zero-probability-successor-outside-state-list"
+            return "error"
+        shapes = {"transitionmatrix": [n, k, n], "rewardmatrix": [n, k, n, G], "stateactionrewardmatrix": [n, k, G],
+                  "initialstatevec": [n], "nonterminalstatevec": [n], "reachablestatevec": [n], "actionmatrix": [n, k],
+                  "absorbingstatevec": [n]}
+        have = {}
+        for name, shp in shapes.items():
+            if name in o["err"]:
+                msg = o["err"][name]
+                if name in ("actionmatrix", "absorbingstatevec") and "joint_action_dist" in msg and not rep.get("jad"):
+                    self.fail(name, "joint_action_dist-undefined", f"raised {msg}: the property calls self.joint_action_dist, "
+                              "which neither StochasticGame nor TabularStochasticGame (nor TabularGridGame) defines")
+                elif name == "stateactionrewardmatrix" and "transitionmatrix" in o["err"]:
+                    ctx.skip("stateactionrewardmatrix not compared: transitionmatrix could not be built")
+                else:
+                    self.fail(name, root_shape(msg), f"raised {msg} (state list {sl})")
+            elif o.get("shape", {}).get(name) != shp:
+                self.fail(name, "shape", f"shape {o.get('shape', {}).get(name)} != {shp}")
+            else:
+                have[name] = o[name]
+        PD = g["PD"]
+        tm, rm = have.get("transitionmatrix"), have.get("rewardmatrix")
+        for si, s in enumerate(sl):
+            for ji, j in enumerate(jl):
+                av = self.A[s][j]
+                if tm is not None:
+                    for ti, t in enumerate(sl):
+                        e = self.pval(self.T[s][j][t])
+                        if tm[si][ji][ti] != e:
+                            if not av and tm[si][ji][ti] == self.pval(g["P"][s][j][t]):
+                                self.fail("transitionmatrix", "unavailable-joint-action-row",
+                                          f"transitionmatrix[{s},{j},{t}] = {tm[si][ji][ti]}: joint action {j} is not offered by "
+                                          f"joint_actions({s}), the row should be zero")
+                            else:
+                                self.fail("transitionmatrix", "terminal-state-row" if s in self.term else "cell",
+                                          f"transitionmatrix[{s},{j},{t}] = {tm[si][ji][ti]} but next_state_dist gives {e}")
+                    if av and s not in self.term and all(t in L for t in range(self.N) if g["P"][s][j][t] > 0):
+                        tot = float(np.sum(tm[si][ji]))
+                        if abs(tot - 1.0) > TOL:
+                            self.fail("transitionmatrix", "row-not-normalised", f"transitionmatrix[{s},{j},:] sums to {tot}")
+                if rm is not None:
+                    for ti, t in enumerate(sl):
+                        for i in range(G):
+                            e = float(self.R[s][j][t][i])
+                            got = rm[si][ji][ti][i]
+                            if got != e:
+                                raw = float(g["R"][s][j][t][i])
+                                listed = g["P"][s][j][t] > 0 or g["Z"][s][j][t]
+                                if got == raw and listed and av and g["P"][s][j][t] == 0:
+                                    ctx.drift("rewardmatrix-zero-probability-entry", {"case": digest(self.case), "cell": [s, j, t]})
+                                elif got == raw and listed and not av:
+                                    self.fail("rewardmatrix", "unavailable-joint-action-row",
+                                              f"rewardmatrix[{s},{j},{t},{i}] = {got}: joint action {j} is not offered by "
+                                              f"joint_actions({s}), the row should be zero")
+                                else:
+                                    self.fail("rewardmatrix", "terminal-state-row" if s in self.term else "cell",
+                                              f"rewardmatrix[{s},{j},{t},agent {i}] = {got} but joint_rewards gives {e}")
+                if "stateactionrewardmatrix" in have:
+                    for i in range(G):
+                        terms = [self.pval(self.T[s][j][t]) * self.R[s][j][t][i] for t in sl]
+                        e = float(sum(terms))
+                        got = have["stateactionrewardmatrix"][si][ji][i]
+                        if abs(got - e) > TOL * max(1.0, sum(abs(x) for x in terms)):
+                            raw = float(sum(self.pval(g["P"][s][j][t]) * g["R"][s][j][t][i] for t in sl))
+                            if not av and abs(got - raw) <= TOL * max(1.0, abs(raw)):
+                                self.fail("stateactionrewardmatrix", "unavailable-joint-action-row",
+                                          f"stateactionrewardmatrix[{s},{j},{i}] = {got}: unavailable joint action, should be 0")
+                            else:
+                                self.fail("stateactionrewardmatrix", "cell",
+                                          f"stateactionrewardmatrix[{s},{j},agent {i}] = {got} but sum_t T*R = {e}")
+                        if PD and sl == self.lst and sorted(jl) == sorted(self.jal):
+                            e2 = float(F(self.rec["lsar"][si][self.jal.index(j)][i], PD))
+                            if abs(e - e2) > TOL * max(1.0, abs(e2)):
+                                raise TLCFailure("spec's list-keyed state-action rewards differ from the keyed views")
+                if "actionmatrix" in have and have["actionmatrix"][si][ji] != av:
+                    self.fail("actionmatrix", "cell", f"actionmatrix[{s},{j}] = {have['actionmatrix'][si][ji]} but available = {av}")
+            if "initialstatevec" in have:
+                e = float(F(g["p0"][s], g["ID"]))
+                if have["initialstatevec"][si] != e:
+                    self.fail("initialstatevec", "cell", f"initialstatevec[{s}] = {have['initialstatevec'][si]} != {e}")
+            if "nonterminalstatevec" in have and have["nonterminalstatevec"][si] != (0 if s in self.term else 1):
+                self.fail("nonterminalstatevec", "cell", f"nonterminalstatevec[{s}] = {have['nonterminalstatevec'][si]}")
+            if "reachablestatevec" in have and bool(have["reachablestatevec"][si]) != (s in self.reach):
+                if s in self.reach1:
+                    self.fail("reachable_states", "zero-probability-successor-included",
+                              f"reachablestatevec[{s}] = 1 for a state only listed with probability 0")
+                else:
+                    self.fail("reachablestatevec", "cell", f"reachablestatevec[{s}] = {have['reachablestatevec'][si]}")
+            if "absorbingstatevec" in have and bool(have["absorbingstatevec"][si]) != (s in self.absv):
+                if bool(have["absorbingstatevec"][si]) == (s in self.absv1):
+                    ctx.drift("absorbingstatevec-zero-probability-entry", {"case": digest(self.case), "state": s})
+                else:
+                    self.fail("absorbingstatevec", "cell", f"absorbingstatevec[{s}] = {have['absorbingstatevec'][si]} but "
+                              f"'every outcome of every available joint action is terminal' is {s in self.absv}")
+        if "initialstatevec" in have and set(sl) >= {s for s in range(self.N) if g["p0"][s] > 0} \
+                and abs(sum(have["initialstatevec"]) - 1.0) > TOL:
+            self.fail("initialstatevec", "not-normalised", f"sums to {sum(have['initialstatevec'])}")
+        if grid:
+            if "position_list" in o["err"]:
+                self.fail("position_list", "error", f"raised {o['err']['position_list']}")
+            elif set(sl) == set(self.lst):
+                got = [self.case["posid"].get(f"{p[0]},{p[1]}") for p in o["position_list"]]
+                if None in got or len(set(got)) != len(got) or set(got) != set(self.rec["positions"]):
+                    self.fail("position_list", "set", f"position_list {o['position_list']} is not the set of agent positions "
+                              "of the listed states")
+
+    # ---------------------------------------------------------------- policy classes
+    def policy(self, o, go, rep):
+        """o: observe_policy result, go: observe_game result (real lists)."""
+        g, ctx = self.g, self.ctx
+        if "lists" in o["err"] or "sl" not in go or "jal" not in go or None in go["sl"] or None in go["jal"]:
+            ctx.skip("policy classes not compared: the game's lists could not be built")
+            return []
+        sl, jl, QD, G = go["sl"], go["jal"], g["QD"], self.G
+        s0 = [s for s in range(self.N) if g["p0"][s] > 0]
+        for i, oa in enumerate(o["agents"]):
+            site = "SingleAgentPolicy"
+            if "construct" in oa["err"]:
+                self.fail(site, "error", f"constructor raised {oa['err']['construct']}", "policy")
+                continue
+            acts = oa["actions"]
+            cand = [sorted(a for a in range(g["K"][i]) if g["avail"][s][i][a]) for s in s0]
+            if None in acts or len(set(acts)) != len(acts) or sorted(acts) not in cand:
+                ctx.drift("SingleAgentPolicy._actions", {"case": digest(self.case), "agent": i, "got": acts, "expected one of": cand})
+                continue
+            if not oa.get("agent_name"):
+                self.fail(site + ".agent_name", "changed", "agent_name differs from the constructor argument", "policy")
+            if "policy_matrix" in oa["err"]:
+                self.fail(site + ".policy_matrix", "error", f"raised {oa['err']['policy_matrix']}", "policy")
+            else:
+                pm = oa["policy_matrix"]
+                if np.asarray(pm).shape != (len(sl), len(acts)):
+                    self.fail(site + ".policy_matrix", "shape", f"shape {np.asarray(pm).shape}", "policy")
+                else:
+                    for si, s in enumerate(sl):
+                        for ai, a in enumerate(acts):
+                            e = float(F(g["W"][i][s][a], QD))
+                            if abs(pm[si][ai] - e) > TOL:
+                                self.fail(site + ".policy_matrix", "cell", f"agent {i}: policy_matrix[{s},{a}] = {pm[si][ai]} "
+                                          f"but the policy gives {e}", "policy")
+            if "action_dist" in oa["err"]:
+                self.fail(site + ".action_dist", "error", f"raised {oa['err']['action_dist']}", "policy")
+            else:
+                for s in sl:
+                    got = {a: p for a, p in oa["action_dist"][str(s)] if p > 0}
+                    exp = {a: float(F(w, QD)) for a, w in enumerate(g["W"][i][s]) if w > 0}
+                    if set(got) != set(exp) or any(abs(got[a] - exp[a]) > TOL for a in exp):
+                        self.fail(site + ".action_dist", "cell", f"agent {i}: action_dist({s}) = {got} but the policy is {exp}", "policy")
+            if "q_matrix" in oa["err"]:
+                self.fail(site + ".q_matrix", "error", f"raised {oa['err']['q_matrix']}", "policy")
+            else:
+                qm = np.asarray(oa["q_matrix"])
+                if rep["qvals"] == "own":
+                    exp = np.array([[100.0 * (s + 1) + a + 0.5 * i for a in acts] for s in sl])
+                elif rep["qvals"] == "joint":
+                    exp = np.array([[1000.0 * (s + 1) + j + 0.5 * i for j in jl] for s in sl])
+                else:
+                    exp = np.zeros((len(sl), len(jl)))
+                if qm.shape != exp.shape:
+                    self.fail(site + ".q_matrix", "shape", f"shape {qm.shape} != {exp.shape}", "policy")
+                elif not np.array_equal(qm, exp):
+                    self.fail(site + ".q_matrix", "cell", f"agent {i}: q_matrix differs from the stored q-values "
+                              f"(first difference at {np.argwhere(qm != exp)[0].tolist()})", "policy")
+        if len([oa for oa in o["agents"] if "construct" not in oa["err"]]) < G:
+            return []
+        site = "TabularMultiAgentPolicy"
+        if "construct" in o["err"]:
+            self.fail(site, "error", f"constructor raised {o['err']['construct']}", "policy")
+            return []
+        den = float(QD ** G)
+        jpm = self.rec["jpm"]
+        if "joint_action_dist" in o["err"]:
+            self.fail(site + ".joint_action_dist", "error", f"raised {o['err']['joint_action_dist']}", "policy")
+        else:
+            for s in sl:
+                got = {j: p for j, p in o["jad"][str(s)] if p > 0}
+                exp = {j: jpm[s][j] / den for j in range(self.J) if jpm[s][j] > 0}
+                if None in got or set(got) != set(exp) or any(abs(got[j] - exp[j]) > TOL for j in exp):
+                    self.fail(site + ".joint_action_dist", "not-the-product", f"joint_action_dist({s}) = {got} but the product of "
+                              f"the agents' policies is {exp}", "policy")
+        missing = [(s, j) for s in sl for j in jl if any(not g["WL"][i][s][g["comp"][j][i] - 1] for i in range(G))]
+        if sl == self.lst and sorted(jl) == sorted(self.jal) and sorted(missing) != sorted((a - 1, b - 1) for a, b in self.rec["polmissing"]):
+            raise TLCFailure("PolMissing of the spec differs from the driver's projection")
+        if "joint_policy_matrix" in o["err"]:
+            msg = o["err"]["joint_policy_matrix"]
+            shape = "action-missing-from-policy-dict" if ("KeyError" in msg and missing) else "error"
+            self.fail(site + ".joint_policy_matrix", shape, f"raised {msg}" + (
+                f": an agent's policy dictionary has no entry for its component of joint action {missing[0][1]} at state "
+                f"{missing[0][0]} (probability 0)" if missing else ""), "policy")
+        else:
+            m = np.asarray(o["jpm"])
+            if m.shape != (len(sl), len(jl)):
+                self.fail(site + ".joint_policy_matrix", "shape", f"shape {m.shape}", "policy")
+            else:
+                for si, s in enumerate(sl):
+                    for ji, j in enumerate(jl):
+                        if abs(m[si][ji] - jpm[s][j] / den) > TOL:
+                            self.fail(site + ".joint_policy_matrix", "not-the-product", f"joint_policy_matrix[{s},{j}] = {m[si][ji]} "
+                                      f"but the product of the agents' policies is {jpm[s][j] / den}", "policy")
+        for name in ("state_list", "joint_action_list", "policy_dict"):
+            if name in o["err"]:
+                self.fail(f"{site}.{name}", "error", f"raised {o['err'][name]}", "policy")
+            elif o.get(f"{name}_same") is False:
+                self.fail(f"{site}.{name}", "differs", f"{name} of the joint policy differs from the game's / agents'", "policy")
+        ctx.skip("occupancy_matrix not evaluated: its result depends on pydata/sparse, which is not installed")
+        # roll-outs: structural checks here, validity by TLC (X04_Run, MODE trace)
+        traces = []
+        for r in o["runs"]:
+            if "err" in r:
+                self.fail("MultiAgentPolicy.run_on", "error", f"maxSteps={r['mx']} raised {r['err']}", "policy")
+                continue
+            if r["keys"] != ["actionTraj", "rewardTraj", "stateTraj"] or len(set(r["lens"])) != 1 or r["lens"][0] < 1:
+                self.fail("MultiAgentPolicy.run_on", "result-shape", f"keys {r['keys']} lengths {r['lens']}", "policy")
+                continue
+            if any(e["s"] < 1 or e["j"] < 1 for e in r["ev"]):
+                self.fail("MultiAgentPolicy.run_on", "unknown-state-or-joint-action", f"trajectory {r['ev']}", "policy")
+                continue
+            traces.append(r)
+        return traces
+
+    def run_verdict(self, r, bad):
+        """bad: the set of clause names X04_Run found broken on roll-out r."""
+        if not bad:
+            return True
+        if bad == {"step-from-terminal-initial-state"}:
+            self.ctx.drift("run_on-steps-from-terminal-initial-state", {"case": digest(self.case), "run": r})
+            return True
+        for c in sorted(bad - {"step-from-terminal-initial-state"}):
+            self.fail("MultiAgentPolicy.run_on", c, f"maxSteps={r['mx']} initialState={r['init']} returned {r['ev']}: {c}", "policy")
+        return False
+
+
+# --------------------------------------------------------------------------------------------
+# instances extracted from TabularGridGame layouts (functional interface only)
+# --------------------------------------------------------------------------------------------
+GRID_ACTIONS = [{"x": 0, "y": 0}, {"x": 1, "y": 0}, {"x": -1, "y": 0}, {"x": 0, "y": 1}, {"x": 0, "y": -1}]
+GRID_SIZES = [(3, 1), (4, 1), (2, 2), (3, 2), (2, 3), (5, 1), (3, 1), (2, 2)]
+
+
+def make_layout(rng):
+    W, H = rng.choice(GRID_SIZES)
+    cells = [(x, y) for y in range(H) for x in range(W)]
+    rng.shuffle(cells)
+    grid = {c: "." for c in cells}
+    grid[cells[0]], grid[cells[1]] = "A0", "A1"
+    rest = cells[2:]
+    mode = rng.choice(["own", "own", "shared", "both"])
+    goals = {"own": ["G0", "G1"], "shared": ["G"], "both": ["G0", "G1", "G"]}[mode]
+    for sym in goals:
+        if rest:
+            grid[rest.pop()] = sym
+    for c in rest:
+        r = rng.random()
+        if r < 0.15:
+            grid[c] = "#"
+        elif r < 0.35:
+            grid[c] = rng.choice(["[", "]", "^", "_", "{", "}", "~", "u"])
+    if rng.random() < 0.3:
+        grid[cells[0]] = "A0." + rng.choice(["{", "}", "~", "u", "]", "^"])
+    layout = "\n".join(" ".join(grid[(x, y)] for x in range(W)) for y in range(H))
+    params = {"goal_reward": rng.choice([10, 5]), "step_cost": rng.choice([-1, -1, 0, -2]),
+              "collision_cost": rng.choice([0, -3]), "fence_success_prob": rng.choice([0.5, 0.25, 1.0])}
+    return layout, params
+
+
+def build_grid(layout, params):
+    from msdm.domains.gridgame.tabulargridgame import TabularGridGame
+    with quiet():
+        return TabularGridGame(layout, **params)
+
+
+def extract_grid(rng, layout, params, *, policy, max_states=48):
+    """The abstract instance of a grid game, read off its functional interface (joint_actions, is_terminal,
+    next_state_dist, joint_rewards, initial_state_dist) on the closure of the initial state and of a few
+    other placements of the agents.  Returns a case or None when the layout is unusable."""
+    gg = build_grid(layout, params)
+    agents = list(gg.agent_names)
+    if len(agents) != 2:
+        return None
+    G, K = 2, [5, 5]
+    comp = [list(c) for c in itertools.product(range(1, 6), range(1, 6))]
+    J = 25
+
+    def ja(j):
+        return {ag: GRID_ACTIONS[comp[j][i] - 1] for i, ag in enumerate(agents)}
+    states, index, rows = [], {}, {}
+
+    def add(s):
+        k = lkey(s)
+        if k not in index:
+            index[k] = len(states)
+            states.append(copy.deepcopy(s))
+            return True
+        return False
+
+    def close(start):
+        """expand through positive-probability outcomes; returns False when some row is unusable"""
+        todo = [start]
+        add(start)
+        while todo:
+            s = todo.pop()
+            k = lkey(s)
+            if k in rows:
+                continue
+            rows[k] = []
+            with quiet():
+                acts = gg.joint_actions(s)
+                if [list(acts[ag]) for ag in agents] != [GRID_ACTIONS, GRID_ACTIONS]:
+                    return False
+                for j in range(J):
+                    d = gg.next_state_dist(s, ja(j))
+                    ent = [(t, float(d.prob(t))) for t in d.support]
+                    if not any(p > 0 for _, p in ent) or len({lkey(t) for t, _ in ent}) != len(ent):
+                        return False
+                    rw = []
+                    for t, p in ent:
+                        r = gg.joint_rewards(s, ja(j), t)
+                        rw.append([_intval(r[ag]) for ag in agents])
+                        if add(t):
+                            todo.append(t)
+                    rows[k].append((ent, rw))
+            if len(states) > max_states:
+                return False
+        return True
+    with quiet():
+        init = gg.initial_state_dist()
+        isupp = [(s, float(init.prob(s))) for s in init.support]
+    if len(isupp) != 1 or isupp[0][1] != 1.0 or not close(isupp[0][0]):
+        return None
+    # a few other placements (usually unreachable): the reachable set is decided by TLC, not assumed
+    free = [(x, y) for x in range(gg.width) for y in range(gg.height)
+            if not any((o["x"], o["y"]) == (x, y) for o in gg.obstacles)]
+    for _ in range(3):
+        if len(free) < 2 or len(states) > max_states - 12:
+            break
+        c0, c1 = rng.sample(free, 2)
+        s = copy.deepcopy(isupp[0][0])
+        for ag, c in zip(agents, (c0, c1)):
+            s[ag]["x"], s[ag]["y"] = c
+        if lkey(s) in index:
+            continue
+        keep = (list(states), dict(index), dict(rows))
+        if not close(s):
+            states[:], index, rows = keep[0], keep[1], keep[2]
+            index = {lkey(x): i for i, x in enumerate(states)}
+            rows = {k: v for k, v in rows.items() if k in index}
+    N = len(states)
+    if N > max_states or any(lkey(s) not in rows for s in states):
+        return None
+    values, vid = [0.0], {0.0: 0}
+    P = [[[0] * N for _ in range(J)] for _ in range(N)]
+    Z = [[[0] * N for _ in range(J)] for _ in range(N)]
+    R = [[[[0, 0] for _ in range(N)] for _ in range(J)] for _ in range(N)]
+    for si, s in enumerate(states):
+        for j in range(J):
+            ent, rw = rows[lkey(s)][j]
+            for (t, p), r in zip(ent, rw):
+                ti = index[lkey(t)]
+                if p > 0:
+                    if p not in vid:
+                        vid[p] = len(values)
+                        values.append(p)
+                    P[si][j][ti] = vid[p]
+                else:
+                    Z[si][j][ti] = 1
+                R[si][j][ti] = r
+    posid, pos = {}, []
+    for s in states:
+        ps = []
+        if not gg.is_terminal(s):
+            for ag in agents:
+                key = f"{s[ag]['x']},{s[ag]['y']}"
+                posid.setdefault(key, len(posid) + 1)
+                ps.append(posid[key])
+        pos.append(ps)
+    g = {"N": N, "G": G, "K": K, "J": J, "comp": comp, "PD": 0, "ID": 1,
+         "term": [1 if gg.is_terminal(s) else 0 for s in states],
+         "avail": [[[1] * 5, [1] * 5] for _ in range(N)], "P": P, "Z": Z, "R": R,
+         "p0": [1 if i == index[lkey(isupp[0][0])] else 0 for i in range(N)], "Z0": [0] * N, "pos": pos,
+         "big": 1, "pol": 0, "explicit": 0, "cuts": []}
+    if policy:
+        W = [[rand_row(rng, 5, 4) for _ in range(N)] for _ in range(G)]
+        g.update(pol=1, QD=4, W=W, WL=[[[1] * 5 for _ in range(N)] for _ in range(G)])
+    rep = {"agents": agents, "labels": "dict", "alabels": "dict", "jad": 0, "qvals": rng.choice([None, "joint", "own"]),
+           "seed": rng.randrange(1 << 30)}
+    return {"kind": "grid", "g": g, "rep": rep, "style": "grid", "layout": layout, "params": params,
+            "states": states, "values": values, "posid": posid}
+
+
+def grid_objects(case):
+    gg = build_grid(case["layout"], case["params"])
+    L = Labels(case["g"], case["rep"], states=case["states"], actions=[GRID_ACTIONS, GRID_ACTIONS])
+    return gg, L
+
+
+def make_grid_cases(rng, n):
+    out, tries = [], 0
+    while len(out) < n and tries < 20 * n + 20:
+        tries += 1
+        layout, params = make_layout(rng)
+        try:
+            c = extract_grid(rng, layout, params, policy=(len(out) % 2 == 0))
+        except Exception:                                     # noqa: BLE001
+            c = None
+        if c is not None:
+            out.append(c)
+    return out
+
+
+# --------------------------------------------------------------------------------------------
+# running the real code for a case; TLC runs; verdicts
+# --------------------------------------------------------------------------------------------
+def run_real(case):
+    """All executions of the real code for one case: {'game': observation, 'policy': observation | None}."""
+    g, rep = case["g"], case["rep"]
+    grid = case["kind"] == "grid"
+    try:
+        game, L = grid_objects(case) if grid else build_game(g, rep)
+    except Exception as e:                                    # noqa: BLE001
+        return {"game": {"err": {"construct": _err(e)}, "n": 1}, "policy": None}
+    out = {"game": observe_game(game, L, g, grid=grid), "policy": None}
+    if g["pol"] and "state_list" not in out["game"]["err"] and "joint_action_list" not in out["game"]["err"]:
+        try:
+            out["policy"] = observe_policy(game, L, g, rep, nruns=(6 if grid else 4))
+        except ImportError as e:
+            out["policy"] = {"err": {"import": _err(e)}, "n": 0, "agents": [], "runs": []}
+    return out
+
+
+def _tlc_g(g):
+    """the fields TLC reads (no floats)"""
+    return {k: v for k, v in g.items()}
+
+
+def judge_cases(ctx, cases, *, real=None, tag=""):
+    batch = [_tlc_g(c["g"]) for c in cases]
+    res = run_tlc(ctx.workdir / f"views{tag}", "X04_GameViews", VIEWS_CFG, files={"batch.json": batch},
+                  env={"BATCH_FILE": "batch.json"}, coverage=(ctx.tier == "thorough" and tag == "0"), timeout=1500)
+    ctx.add_tlc(res, "mc: search machine (all pop orders x MAX_STATES cut-offs x positive-probability / listed-entry variants), "
+                     "list, joint-action collection, row-by-row arrays, derived vectors, joint policy matrix; keyed-view oracle")
+    bad = [v for v in res.violated if v in VIEWS_INVS]
+    if bad:
+        raise TLCFailure(f"design-level invariant violated in X04_GameViews: {sorted(set(bad))}\n"
+                         + (res.traces[0][:3000] if res.traces else ""))
+    views, mach = {}, {}
+    for r in res.records:
+        if r["kind"] == "views":
+            views[r["iid"]] = r
+        else:
+            mach.setdefault((r["iid"], r["cut"], r["variant"]), set()).add(frozenset(x - 1 for x in r["visited"]))
+    judges, alltraces = [], []
+    pol_games = []
+    for i, c in enumerate(cases, start=1):
+        g = c["g"]
+        rec = views.get(i)
+        if rec is None:
+            raise TLCFailure(f"no views record for case {i}")
+        J = Judge(ctx, c, rec)
+        for k, cut in enumerate(g["cuts"]):       # the machine's terminal states are exactly the oracle's results
+            if mach.get((i, cut, 0), set()) != J.cuts0[k]:
+                raise TLCFailure(f"machine terminals != CutResults for case {i} cut {cut} variant 0")
+            if (i, cut, 1) in mach and mach[(i, cut, 1)] != J.cuts1[k]:
+                raise TLCFailure(f"machine terminals != CutResults for case {i} cut {cut} variant 1")
+        if i % 3 == 0 or len(cases) < 20 or c["kind"] == "grid":
+            crosscheck(i, g, rec)
+            ctx.count("oracle_crosschecks")
+        obs = real[i - 1] if real is not None else run_real(c)
+        ctx.evaluations += obs["game"].get("n", 0) + (obs["policy"] or {}).get("n", 0)
+        go = obs["game"]
+        if "construct" in go["err"]:
+            J.fail("TabularGridGame" if c["kind"] == "grid" else "TabularStochasticGame", "error",
+                   f"construction raised {go['err']['construct']}")
+            judges.append((J, c, obs, []))
+            continue
+        J.reachability(go)
+        J.arrays(go, c["rep"], grid=(c["kind"] == "grid"))
+        traces = []
+        if obs["policy"] is not None:
+            if "import" in obs["policy"]["err"]:
+                ctx.skip("policy classes not importable: " + obs["policy"]["err"]["import"])
+            else:
+                traces = J.policy(obs["policy"], go, c["rep"])
+                if traces:
+                    pol_games.append(i)
+        for r in traces:
+            alltraces.append((J, r, {"gid": i, "mx": r["mx"], "init": r["init"], "ev": r["ev"]}))
+        judges.append((J, c, obs, traces))
+    # ---- roll-outs: generator MC over the policy games, validation of the recorded roll-outs
+    if alltraces:
+        # games without a policy are replaced by a stub so that gid indexes the same batch
+        small = [i for i in pol_games if cases[i - 1]["kind"] == "hand"]
+        gen_games = [batch[i - 1] for i in small]
+        if gen_games:
+            rg = run_tlc(ctx.workdir / f"gen{tag}", "X04_Run", GEN_CFG, files={"batch.json": {"games": gen_games, "traces": []}},
+                         env={"BATCH_FILE": "batch.json", "MODE": "mc"}, timeout=1500)
+            ctx.add_tlc(rg, "mc: reference machine of run_on, every roll-out for maxSteps 1..3; the judge accepts each")
+            badg = [v for v in rg.violated if v in GEN_INVS]
+            if badg:
+                raise TLCFailure(f"design-level invariant violated in X04_Run (mc): {sorted(set(badg))}\n"
+                                 + (rg.traces[0][:3000] if rg.traces else ""))
+        games = [b if (k + 1) in pol_games else {"N": 0} for k, b in enumerate(batch)]
+        rt = run_tlc(ctx.workdir / f"trace{tag}", "X04_Run", TRACE_CFG,
+                     files={"batch.json": {"games": games, "traces": [t for _, _, t in alltraces]}},
+                     env={"BATCH_FILE": "batch.json", "MODE": "trace"}, timeout=1500)
+        ctx.add_tlc(rt, "trace: recorded run_on roll-outs, one Check action per event")
+        verdicts = {r["tid"]: set(r["bad"]) for r in rt.records if "tid" in r}
+        for tid, (J, r, t) in enumerate(alltraces, start=1):
+            if tid not in verdicts:
+                raise TLCFailure(f"no verdict for roll-out {tid}")
+            pyb = py_judge_run(cases[t["gid"] - 1]["g"], t["mx"], t["init"], t["ev"])
+            if pyb != verdicts[tid]:
+                raise TLCFailure(f"X04_Run and the independent Python judge disagree on roll-out {tid}: {verdicts[tid]} vs {pyb}")
+            if J.run_verdict(r, verdicts[tid]):
+                ctx.validated += 1
+                ctx.count("rollouts_accepted")
+                if len(r["ev"]) >= 2 and len({e["s"] for e in r["ev"]}) >= 2:
+                    ctx.count("rollouts_visiting_two_states")
+    # ---- accounting
+    for J, c, obs, traces in judges:
+        g = c["g"]
+        if J.ok:
+            ctx.validated += 1
+        listed = set(range(g["N"])) if g["explicit"] else J.reach
+        statedep = any(not J.A[s][j] for s in listed for j in range(g["J"]))
+        ghost = any(s in J.term for s in listed)
+        if len(listed) >= 3 and g["J"] >= 2 and ghost and (statedep or J.reach != set(range(g["N"])) or g["pol"]):
+            ctx.nontrivial(digest([g, c["rep"]]))
+        ctx.count(f"style_{c['style']}")
+        if c["kind"] == "hand":
+            ctx.sample({"instance": {k: g[k] for k in ("N", "G", "K", "PD", "ID", "term", "avail", "P", "p0", "explicit", "cuts", "pol")},
+                        "rep": c["rep"], "reach": sorted(J.reach), "jal": J.jal, "real_state_list": obs["game"].get("sl"),
+                        "rollouts": [t["ev"] for t in traces][:2]}, limit=3)
+        else:
+            ctx.sample({"layout": c["layout"], "params": c["params"], "states": g["N"], "reach": len(J.reach),
+                        "distinct_probabilities": len(c["values"]), "real_state_list": obs["game"].get("sl")}, limit=5)
+    return judges
+
+
+def judge_constructor(ctx):
+    oc = observe_constructor()
+    ctx.evaluations += 1
+    if oc["ok"]:
+        ctx.validated += 1
+    else:
+        ctx.violation("X04:TabularStochasticGame.__init__:error",
+                      f"a subclass that relies on TabularStochasticGame.__init__(agent_names=[...]) cannot be constructed: {oc['err']}",
+                      {"case": {"kind": "constructor"}, "object": "game", "clause": "constructor"})
+
+
+# --------------------------------------------------------------------------------------------
+def run(ctx):
+    mode = install_sparse()
+    rng = random.Random(ctx.seed * 104729 + 404)
+    quick = ctx.tier == "quick"
+    ctx.rule = ("hand-built games (1-3 agents, 1-2 actions each, 1-3 non-terminal + 0-2 terminal states with ghost dynamics, optional "
+                "unreachable state, state-dependent per-agent action lists, zero-probability entries inside / outside the reachable "
+                "set, terminal initial states, given or inferred lists, MAX_STATES 0..N+1, optional joint policy with full / sparse "
+                "dictionaries) x label kinds (int, str, tuple, nested dict) x distribution classes x agent orders, plus instances "
+                "extracted from random TabularGridGame layouts (<= 6 cells); non-trivial = >= 3 listed states, >= 2 joint actions, "
+                "a listed terminal state, and (a listed state with an unavailable joint action, or an unreachable state, or a policy)")
+    ctx.assumptions = [
+        "TLC evaluates the TLA+ views correctly (cross-checked against an independent Python oracle on every 3rd hand-built and "
+        "every grid instance; machine terminals are compared with the recursive CutResults oracle; X04_Run's verdict on every "
+        "roll-out is compared with an independent Python judge)",
+        f"pydata/sparse: {mode}" + (" (not installed and not declared by msdm: COO is a dense stand-in that sums duplicate "
+                                    "coordinates; occupancy_matrix is not evaluated)" if mode != "real" else ""),
+        "grid instances: the abstract game is read off the real functional interface, so the check there is arrays / lists / "
+        "policies / roll-outs against next_state_dist, joint_rewards, is_terminal, joint_actions - not the movement rules (C18)",
+        "probability cells are compared exactly; sums and products with 1e-9 (<= 40 terms exact to a few ulp)"]
+    ctx.extra["sparse"] = mode
+    judge_constructor(ctx)
+    n_hand = 330 if quick else 3000
+    n_grid = 8 if quick else 60
+    cases = make_cases(rng, n_hand)
+    grids = make_grid_cases(rng, n_grid)
+    ctx.count("grid_layouts", len(grids))
+    chunk = 330 if quick else 600
+    k = 0
+    for a in range(0, len(cases), chunk):
+        judge_cases(ctx, cases[a:a + chunk], tag=str(k))
+        k += 1
+    gchunk = 8 if quick else 10
+    for a in range(0, len(grids), gchunk):
+        judge_cases(ctx, grids[a:a + gchunk], tag=f"g{k}")
+        k += 1
+
+
+def replay(ctx, case):
+    install_sparse()
+    c = case["case"]
+    if c.get("kind") == "constructor":
+        judge_constructor(ctx)
+        return
+    judge_cases(ctx, [c])
+
+
+def selftest(ctx):
+    """Binding demonstration.  Cases are judged untouched (whatever they report is the baseline), then
+    (1) one transitionmatrix cell returned by the real code is corrupted, (2) a state is dropped from the
+    reachable set the real code returned, (3) msdm is handed a different game than TLC saw (initial state
+    moved), (4) one event is dropped from a recorded roll-out, (5) one joint-policy cell is corrupted.
+    Each must add a report that names the corrupted thing and that the baseline does not contain."""
+    install_sparse()
+    rng = random.Random(17)
+    cases = [c for c in make_cases(rng, 120) if c["style"] in ("clean", "policy") and not c["g"]["explicit"]]
+    real = [run_real(c) for c in cases]
+
+    def usable(c, o):
+        return not o["game"]["err"].get("transitionmatrix") and len(o["game"].get("sl", [])) >= 2 \
+            and sum(1 for x in c["g"]["p0"] if x > 0) == 1
+    picks = [i for i, (c, o) in enumerate(zip(cases, real)) if usable(c, o)]
+    pol = [i for i in picks if real[i]["policy"] and "jpm" in real[i]["policy"]
+           and any(len(r.get("ev", [])) >= 2 and len({e["s"] for e in r["ev"]}) >= 2 for r in real[i]["policy"]["runs"])]
+    if len(picks) < 3 or not pol:
+        return False
+
+    def sigs(cs, rs):
+        before = len(ctx.violations)
+        judge_cases(ctx, cs, real=rs, tag="st")
+        return {v[0] for v in ctx.violations[before:]}
+    outcomes = []
+    # (1)
+    i = picks[0]
+    base = sigs([cases[i]], [real[i]])
+    r = copy.deepcopy(real[i])
+    r["game"]["transitionmatrix"][0][0][0] += 0.25
+    outcomes.append(any("transitionmatrix" in s for s in sigs([cases[i]], [r]) - base))
+    # (2)
+    i = picks[1]
+    base = sigs([cases[i]], [real[i]])
+    r = copy.deepcopy(real[i])
+    r["game"]["reach"] = r["game"]["reach"][:-1]
+    outcomes.append(any("reachable_states" in s for s in sigs([cases[i]], [r]) - base))
+    # (3)
+    i = picks[2]
+    base = sigs([cases[i]], [real[i]])
+    other = copy.deepcopy(cases[i])
+    p0 = other["g"]["p0"]
+    j0 = next(k for k in range(len(p0)) if p0[k] > 0)
+    p0[(j0 + 1) % len(p0)], p0[j0] = p0[j0], 0
+    outcomes.append(any("initialstatevec" in s or "state_list" in s or "reachable" in s
+                        for s in sigs([cases[i]], [run_real(other)]) - base))
+    # (4), (5)
+    i = pol[0]
+    base = sigs([cases[i]], [real[i]])
+    r = copy.deepcopy(real[i])
+    run_ = next(x for x in r["policy"]["runs"] if len(x.get("ev", [])) >= 2 and len({e["s"] for e in x["ev"]}) >= 2)
+    k = next(k for k in range(len(run_["ev"]) - 1) if run_["ev"][k]["s"] != run_["ev"][k + 1]["s"])
+    del run_["ev"][k + 1 if k + 2 < len(run_["ev"]) else k]
+    run_["lens"] = [len(run_["ev"])] * 3
+    got = sigs([cases[i]], [r]) - base
+    outcomes.append(any("run_on" in s for s in got))
+    r = copy.deepcopy(real[i])
+    r["policy"]["jpm"][0][0] += 0.125
+    outcomes.append(any("joint_policy_matrix" in s for s in sigs([cases[i]], [r]) - base))
+    print(f"  selftest: corrupted cell detected={outcomes[0]}, dropped state detected={outcomes[1]}, foreign instance "
+          f"detected={outcomes[2]}, dropped roll-out event detected={outcomes[3]}, corrupted policy cell detected={outcomes[4]}")
+    return all(outcomes)
